@@ -1,7 +1,7 @@
 (* C08 -- interfaces partition the mesh edges; internal/external classification is exact.
    Statements only; proofs in Proofs/InterfacesProofs.v *)
 From Coq Require Import ZArith List Bool.
-From Forsys Require Import Model.PyList Model.Interfaces Proofs.InterfacesProofs.
+From Forsys Require Import Model.PyList Model.Interfaces Proofs.InterfacesProofs Proofs.ShiftProofs.
 Import ListNotations.
 Open Scope Z_scope.
 
@@ -20,6 +20,12 @@ Proof. exact cell_interfaces_cover. Qed.
 Theorem C08_no_junction_no_interface : forall junc ids, existsb junc ids = false -> cell_interfaces junc ids = [].
 Proof. exact no_junction_no_interface. Qed.
 (* no interface is listed twice in either direction, none is lost, none invented *)
+(* every mesh edge (two vertices that follow each other on the closed cycle) of a cell that has a junction lies in an interface of the
+   frame, in one of the two directions *)
+Theorem C08_every_mesh_edge_in_an_interface : forall junc cells c a b,
+  In c cells -> existsb junc (snd c) = true -> cyc_adjacent a b (snd c) ->
+  exists f, In f (create_edges_new junc cells) /\ (adjacent a b f \/ adjacent b a f).
+Proof. exact mesh_edge_in_interface. Qed.
 Theorem C08_dedup_no_repeat : forall l, NoDupRev (dedup_ifaces l).
 Proof. exact dedup_no_repeat. Qed.
 Theorem C08_dedup_keeps_all : forall l e, In e l -> exists f, In f (dedup_ifaces l) /\ same_iface e f.
@@ -51,3 +57,4 @@ Print Assumptions C08_dedup_keeps_all.
 Print Assumptions C08_dedup_sound.
 Print Assumptions C08_three_predicates_agree.
 Print Assumptions C08_internal_characterisation.
+Print Assumptions C08_every_mesh_edge_in_an_interface.
